@@ -113,6 +113,8 @@ impl Future for StatusFuture {
     if self.0.is_closed() {
       Poll::Ready(NormalReturn::new(()))
     } else {
+      #[cfg(feature = "verif_hooks")]
+      crate::verif::yield_point("status_check");
       self.0.waker.register(cx.waker());
       Poll::Pending
     }
